@@ -396,6 +396,7 @@ def leanCtx (c : Nf.Ctx) : String :=
 def showSrc : Nf.Src → String
   | .c b => if b then "1" else "0"
   | .inp a j n => (if n then "!" else "") ++ (if a then "v" else "r") ++ toString j
+  | .x2 g j g' j' n => (if n then "!" else "") ++ "(" ++ (if g then "v" else "r") ++ toString j ++ "^" ++ (if g' then "v" else "r") ++ toString j' ++ ")"
   | .ors ls => "(" ++ "|".intercalate (ls.map fun l => (if l.neg then "!" else "") ++ (if l.arg then "v" else "r") ++ toString l.j) ++ ")"
   | .top => "?"
 
